@@ -320,8 +320,7 @@ pub open spec fn cmp_contract(op: Cmp, a: VM, b: VM, r: Result<(), Error>) -> bo
     }
 }
 //@ extract src/build/opcode/vm.rs :: impl VM :: fn op_gt
-//@   rule R1 R3
-//@   subst "Bool(f > ff)" => "Bool(verif_f64_gt(*f, *ff))"
+//@   rule R1 R3 R6(*f,*ff)
 //@   ret r
 //@   sig <<<
         requires old(self).stack@.len() >= 2
@@ -330,8 +329,7 @@ pub open spec fn cmp_contract(op: Cmp, a: VM, b: VM, r: Result<(), Error>) -> bo
 //@   mutant gt_swapped "Bool(i > ii)" => "Bool(ii > i)" expect op_gt
 //@ end
 //@ extract src/build/opcode/vm.rs :: impl VM :: fn op_lt
-//@   rule R1 R3
-//@   subst "Bool(f < ff)" => "Bool(verif_f64_lt(*f, *ff))"
+//@   rule R1 R3 R6(*f,*ff)
 //@   ret r
 //@   sig <<<
         requires old(self).stack@.len() >= 2
@@ -340,8 +338,7 @@ pub open spec fn cmp_contract(op: Cmp, a: VM, b: VM, r: Result<(), Error>) -> bo
 //@   mutant lt_le "Bool(i < ii)" => "Bool(i <= ii)" expect op_lt
 //@ end
 //@ extract src/build/opcode/vm.rs :: impl VM :: fn op_gteq
-//@   rule R1 R3
-//@   subst "Bool(f >= ff)" => "Bool(verif_f64_ge(*f, *ff))"
+//@   rule R1 R3 R6(*f,*ff)
 //@   ret r
 //@   sig <<<
         requires old(self).stack@.len() >= 2
@@ -349,13 +346,13 @@ pub open spec fn cmp_contract(op: Cmp, a: VM, b: VM, r: Result<(), Error>) -> bo
 //@   >>>
 //@ end
 //@ extract src/build/opcode/vm.rs :: impl VM :: fn op_lteq
-//@   rule R1 R3
-//@   subst "Bool(f <= ff)" => "Bool(verif_f64_le(*f, *ff))"
+//@   rule R1 R3 R6(*f,*ff)
 //@   ret r
 //@   sig <<<
         requires old(self).stack@.len() >= 2
         ensures cmp_contract(Cmp::LtEq, *old(self), *final(self), r)
 //@   >>>
+//@   mutant fle_lt "f <= ff" => "f < ff" expect op_lteq
 //@   mutant fle_swapped "verif_f64_le(*f, *ff)" => "verif_f64_le(*ff, *f)" expect op_lteq
 //@ end
 
